@@ -87,8 +87,7 @@ def main():
     rng = scen.Rng(args["seed"])
     n = (1200 if args["tier"] == "thorough" else 150) * args["budget"]
     seeds += [rng.next() for _ in range(n)]
-    with ThreadPoolExecutor(max_workers=12) as ex:
-        list(ex.map(lambda s: one(prop, s, model, rep), seeds))
+    scen.run_cases(lambda s: one(prop, s, model, rep), seeds, rep, 12)
     scen.finish(args, rep, t0, model)
 
 
